@@ -20,6 +20,64 @@ def tlc_cfg(text, name, **kw):
     return vlib.tlc("MCLimiter", name, workdir=wd, **kw)
 
 
+def system_level(chk, sd, g):
+    """the limiter model's walks through the whole balancer (lbsim, rate limiter enabled): every model Allow is a
+    client request; the client is identified by the connection's address or by X-Forwarded-For; verdict = 429 or not,
+    and a limited request must not reach a backend.  One model tick = one lbsim tick (2 s), refill = 2R s."""
+    import json
+    import pool_common as pc
+    binp = pc.build_lbsim(sd)
+    ws, stats = vlib.walks(g, max_len=120)
+    scripts = []
+    for variant in ("peer", "xff"):
+        for j, w in enumerate(ws):
+            cf = w["cf"]
+            steps, rid = [], 0
+            for a in w["acts"]:
+                if a["a"] == "allow":
+                    rid += 1
+                    st = {"a": "req", "id": rid, "plan": "ok", "client": "10.0.0.%d" % a["c"]}
+                    if variant == "xff":
+                        st["client"] = "10.9.9.9"
+                        st["hdr"] = {"X-Forwarded-For": "203.0.113.%d, 10.9.9.9" % a["c"]}
+                    st["c"] = a["c"]
+                    steps.append(st)
+                else:
+                    steps.append({"a": "tick", "n": 1})
+            scripts.append({"id": "sys-%s-%d-%d" % (variant, w["init"], j), "lcf": cf,
+                            "cfg": {"strategy": "round_robin", "backends": [{"name": "b1", "w": 1}, {"name": "b2", "w": 1}],
+                                    "passive": {"on": False, "thr": 1, "win": 1}, "active": {"on": False, "iv": 1},
+                                    "rl": {"on": True, "max": cf["max"], "refill": 2 * cf["r"]}},
+                            "steps": steps})
+    tp = pc.replay(binp, scripts, sd, "limsys")
+    by_id = {s["id"]: s for s in scripts}
+    out, cur, disp = [], None, set()
+    for e in vlib.read_ndjson(tp):
+        if e["ev"] == "cfg":
+            cur = by_id[e["id"]]
+            cmap = {st["id"]: st["c"] for st in cur["steps"] if st["a"] == "req"}
+            disp = set()
+            out.append({"ev": "cfg", "id": e["id"], "cf": cur["lcf"]})
+        elif e["ev"] == "tick":
+            out.append({"ev": "tick", "n": e["n"]})
+        elif e["ev"] == "dispatch":
+            disp.add(e["id"])
+        elif e["ev"] == "reply":
+            res = e["kind"] != "rate_limited"
+            out.append({"ev": "allow", "c": cmap[e["id"]], "res": res, "solo": res, "fwd": e["id"] in disp, "status": e["status"]})
+    mp = os.path.join(sd, "limsys.mapped.ndjson")
+    vlib.write_ndjson(mp, out)
+    chk.cov["traces_validated_against_impl"] += len(scripts)
+    chk.cov["replayed_transitions_system_level"] = stats["transitions"] * 2
+    viols, pr = vlib.observe("ObsLimiterTrace", "ObsLimiterTrace.cfg", mp)
+    chk.add_tlc("P:LimiterObs over balancer-level replay", pr)
+    for v in viols:
+        for vv in v["v"]:
+            sc = by_id.get(v["seg"], {})
+            sig = {"clause": vv["clause"], "info": vv["info"], "cf": sc.get("lcf"), "class": "system-" + v["seg"].split("-")[1]}
+            chk.violation(sig, [{"script": sc}] + pc.segment(tp, v["seg"]), name="%s-%s.ndjson" % (vv["clause"], v["seg"]))
+
+
 def run(tier):
     chk = vlib.Check("C09", tier)
     sd = vlib.scratch("c09")
@@ -100,6 +158,7 @@ def run(tier):
             chk.violation(sig, [{"script": sc, "line": v["line"]}] + seg, name="%s-%s.ndjson" % (vv["clause"], v["seg"]))
     if scripts:
         chk.sample({"script": scripts[0]["id"], "cf": scripts[0]["cf"], "steps": scripts[0]["steps"][:14], "events": ev[1:12]})
+    system_level(chk, sd, g2)
     import dist_common
     dist_common.run(chk, sd, tier, ["limconc"], {"C09"})
     chk.cov["exhaustive"] = True
